@@ -41,12 +41,13 @@ Definition RN : Num R := {|
 Ltac rnum := unfold num_ops, RNops in *; cbn [RN nopp nadd nsub nmul ndiv nleb nltb neqb nofZ nexp nln nlog10 npow
                        nrint nround_np nround_py ntrunc nfloor] in *.
 
-(* destruct one boolean comparison occurring in the goal, leaving the real fact as hypothesis *)
+(* destruct one boolean comparison occurring in the goal (innermost first), leaving the real fact as hypothesis *)
+Ltac no_if t := lazymatch t with context [if _ then _ else _] => fail | _ => idtac end.
 Ltac rcase_goal :=
   match goal with
-  | |- context [Rleb ?a ?b] => destruct (Rleb_spec a b)
-  | |- context [Rltb ?a ?b] => destruct (Rltb_spec a b)
-  | |- context [Reqb ?a ?b] => destruct (Reqb_spec a b)
+  | |- context [Rleb ?a ?b] => no_if a; no_if b; destruct (Rleb_spec a b); cbv beta iota
+  | |- context [Rltb ?a ?b] => no_if a; no_if b; destruct (Rltb_spec a b); cbv beta iota
+  | |- context [Reqb ?a ?b] => no_if a; no_if b; destruct (Reqb_spec a b); cbv beta iota
   end.
 Ltac rcases := repeat rcase_goal.
 
